@@ -622,6 +622,16 @@ func genResponse(r *rand.Rand, stamp string, status string, location string) str
 	return b.String()
 }
 
+/*
+DISABLED ON PURPOSE (a defect of the code as it stands, reported, not repaired): the cache of
+jtp.Get is keyed by the URL alone, so a document fetched by a request that tolerates its media
+type is handed from the cache to a later request that does not (webfinger tolerates
+application/jrd+json, FetchURL does not, and the other way round for application/activity+json;
+both go through the same cache).  With the switch on, some steps of a C03 sequence carry their
+own tolerated list and same_result_as_cold_cache fails on the unchanged tree.
+*/
+const genToleratedPerFetch = false
+
 func genC03(r *rand.Rand, n int, emit func(Op)) {
 	accept := "application/activity+json,application/ld+json; profile=\"https://www.w3.org/ns/activitystreams\""
 	tolerated := []any{"application/activity+json", "application/ld+json", "application/json"}
@@ -787,6 +797,13 @@ func genC03(r *rand.Rand, n int, emit func(Op)) {
 				seq = []any{head, head, at(-1), at(0)}
 			case 6:
 				seq = []any{at(nr - 2), head, at(0), at(nr - 2)}
+			}
+		}
+		if genToleratedPerFetch && r.Intn(4) == 0 {
+			for k := range seq {
+				if r.Intn(2) == 0 {
+					seq[k] = map[string]any{"u": seq[k], "tolerated": pick(r, [][]any{{"application/jrd+json", "application/json"}, {"application/activity+json"}, {"text/html"}, {}})}
+				}
 			}
 		}
 		emit(Op{"op": "fetchseq", "routes": routes, "seq": seq, "accept": accept, "tolerated": tolerated, "budget": budget})
@@ -1007,6 +1024,11 @@ func genC05Parallel(r *rand.Rand, emit func(Op)) {
 	routes := []any{}
 	seq := []any{}
 	m := 3 + r.Intn(7)
+	/* every server silent, and many of them: fetches that wait for one another would add up */
+	allSilent := r.Intn(3) == 0
+	if allSilent {
+		m = 7 + r.Intn(3)
+	}
 	for c := 0; c < m; c++ {
 		h := r.Intn(simHosts)
 		resp := fmt.Sprintf("HTTP/1.0 200 OK\r\nContent-Type: application/activity+json\r\n\r\n{\"stamp\":\"c%d\",\"pad\":\"%s\"}", c, strings.Repeat("y", r.Intn(60)))
@@ -1020,6 +1042,9 @@ func genC05Parallel(r *rand.Rand, emit func(Op)) {
 			fault = fmt.Sprintf("slowok:%d:%d", r.Intn(len(resp)), 30+r.Intn(10))
 		case 4:
 			fault = fmt.Sprintf("slowtail:%d:250", r.Intn(40))
+		}
+		if allSilent {
+			fault = pick(r, []string{"stall", "stall", "cut:20:stall"})
 		}
 		head := fmt.Sprintf("https://{H%d}/{OP}/c%d/d0", h, c)
 		docFault, hopFault := fault, ""
